@@ -671,7 +671,7 @@ func (c *Corpus) MutateOpt(r Rand, l Lang, text string, m Mut, o Options) string
 		}
 	case TokNest:
 		i := pick()
-		depth := pow(r, []int{4, 32, 300, 3000, 20000})
+		depth := pow(r, []int{4, 32, 300, 3000, 8000})
 		open, close := nestPair(r, l)
 		if o.MaxNest > 0 && depth > o.MaxNest {
 			depth = o.MaxNest
@@ -894,7 +894,7 @@ type Options struct {
 	MaxSteps int
 	// MaxSeed bounds the size of the seeds that are picked (0 means MaxLen).
 	MaxSeed int
-	// MaxNest bounds the depth the nesting mutator adds in one step (0 means 20000).
+	// MaxNest bounds the depth the nesting mutator adds in one step (0 means 8000).
 	MaxNest int
 }
 
